@@ -376,9 +376,10 @@ func (p *Printer) blockIndent() int {
 }
 
 func (p *Printer) ifExpr(d *doc, v If, col int) {
+	// the cheap tests first: oneLine renders its argument, which would make deep nesting exponential
 	inlineOK := len(v.Elifs) == 0 && simpleBlock(v.Then) && (v.Else == nil || simpleBlock(v.Else)) &&
-		p.oneLine(v.Cond, ctxTarget) && p.oneLine(v.Then.Final, ctxTop) && (v.Else == nil || p.oneLine(v.Else.Final, ctxTop)) &&
-		!blockValued(v.Then.Final) && (v.Else == nil || !blockValued(v.Else.Final))
+		!blockValued(v.Then.Final) && (v.Else == nil || !blockValued(v.Else.Final)) &&
+		p.oneLine(v.Cond, ctxTarget) && p.oneLine(v.Then.Final, ctxTop) && (v.Else == nil || p.oneLine(v.Else.Final, ctxTop))
 	if inlineOK && p.choose("if-inline", 2) == 0 {
 		d.add("if ")
 		d.sub(func(c int) []string { return p.Expr(v.Cond, c, ctxTarget) })
